@@ -61,6 +61,17 @@ def run(prog, R):
                         cs = [const_of(f) for f in s_["rv"]["fields"] if f.get("k") == "const" and f.get("ty") == "char"]
                         if len(cs) == 2:
                             pairs.add(chr(cs[0]) + chr(cs[1]))
+        # a table kept as a named / inline constant: the evaluated value tree of the operand
+        def _walk(x):
+            if isinstance(x, dict):
+                if x.get("ty") == "(char, char)" and isinstance(x.get("fields"), list) and len(x["fields"]) == 2 and all("bits" in f for f in x["fields"]):
+                    pairs.add(chr(int(x["fields"][0]["bits"])) + chr(int(x["fields"][1]["bits"])))
+                for v in x.values():
+                    _walk(v)
+            elif isinstance(x, list):
+                for v in x:
+                    _walk(v)
+        _walk(hs.j)
         lex_units = pairs | {x for x in single if x == "s"}
         R.ob("C10.1-units-agree", "lexer leaves exactly the unit spellings as separate identifier tokens", lex_units == set(spec["units"]), hs.at, f"lexer: {sorted(lex_units)}; specification: {sorted(spec['units'])}")
     # asg time unit map is the identity on names
